@@ -4,6 +4,8 @@
 //   --prop C05 : orthogonal routes are axis-parallel and of minimum length + penalty*bends; bends() estimator
 #include "libavoid/libavoid.h"
 #include <cstdio>
+#include <map>
+#include <queue>
 #include <array>
 #include "mcx/mcx.h"
 #include "oracle/geom.h"
@@ -388,6 +390,41 @@ static double ortho_cost(const Avoid::PolyLine &r, double penCells, bool &diag) 
     for (size_t i = 2; i < q.size(); i++) { bool rev = (q[i - 2].x == q[i - 1].x && q[i - 1].x == q[i].x) || (q[i - 2].y == q[i - 1].y && q[i - 1].y == q[i].y); bends += rev ? 2 : 1; }
     return len / S + penCells * bends;
 }
+
+// Optimum of length + pen*bends over the search space the router's A* is DOCUMENTED to explore: the router's own orthogonal visibility graph
+// (read after the transaction) with the turn-pruning rule of makepath.cpp ("only turn where a shape edge lies ahead on the new line or in line
+// with the target, unless still on the source's row/column") applied as a filter on successors -- but searched by a plain Dijkstra over
+// (vertex, previous vertex) written here, sharing nothing with the library's A* (open list, heuristic, tie-breaks, cost targets).
+// Used ONLY to classify known findings: a route dearer than the restricted optimum but EQUAL to this value is explained by the documented
+// pruning rule alone (KF-C05-2); anything else in the search machinery shows up as a difference from this value and is reported.
+static double pruned_space_optimum(Avoid::ConnRef *c, double pen) {
+    using namespace Avoid; VertInf *src = c->src(), *tar = c->dst(); if (!src || !tar) return 1e18;
+    typedef pair<VertInf *, VertInf *> St; map<St, double> d; typedef pair<double, St> Q; priority_queue<Q, vector<Q>, greater<Q>> pq;
+    d[{src, nullptr}] = 0; pq.push({0, {src, nullptr}});
+    while (!pq.empty()) {
+        Q q = pq.top(); pq.pop(); VertInf *v = q.second.first, *prev = q.second.second; if (q.first > d[q.second] + 1e-12) continue;
+        if (v == tar) return q.first;
+        for (EdgeInf *e : v->orthogVisList) {
+            if (e->isDisabled()) continue; VertInf *w = e->otherVert(v); if (prev && w == prev) continue;
+            if (w->id.isConnPt() && w != tar) continue;
+            const Point &bp = v->point, &np = w->point;
+            bool nX = prev && prev->point.x != bp.x, nY = prev && prev->point.y != bp.y;
+            if (bp.x == np.x && nX && !nY && bp.y != src->point.y) {
+                if (np.y < bp.y) { if (!(v->orthogVisPropFlags & YL_EDGE) && bp.x != tar->point.x) continue; }
+                else if (np.y > bp.y) { if (!(v->orthogVisPropFlags & YH_EDGE) && bp.x != tar->point.x) continue; } }
+            if (bp.y == np.y && nY && !nX && bp.x != src->point.x) {
+                if (np.x < bp.x) { if (!(v->orthogVisPropFlags & XL_EDGE) && bp.y != tar->point.y) continue; }
+                else if (np.x > bp.x) { if (!(v->orthogVisPropFlags & XH_EDGE) && bp.y != tar->point.y) continue; } }
+            double dist = e->getDist(); if (dist == 0) continue;
+            double cst = q.first + dist;
+            if (prev) { bool straight = (prev->point.x == bp.x && bp.x == np.x && (bp.y - prev->point.y) * (np.y - bp.y) > 0) || (prev->point.y == bp.y && bp.y == np.y && (bp.x - prev->point.x) * (np.x - bp.x) > 0);
+                bool back = (prev->point.x == bp.x && bp.x == np.x && (bp.y - prev->point.y) * (np.y - bp.y) < 0) || (prev->point.y == bp.y && bp.y == np.y && (bp.x - prev->point.x) * (np.x - bp.x) < 0);
+                if (back) cst += 2 * pen; else if (!straight) cst += pen; }
+            St t{w, v}; auto it = d.find(t); if (it == d.end() || cst < it->second - 1e-12) { d[t] = cst; pq.push({cst, t}); }
+        }
+    }
+    return 1e18;
+}
 // does the raw route reverse on itself (a point p[i] with p[i-1] and p[i+1] on the same side of it along one line)?
 static bool doubles_back(const Avoid::PolyLine &r) {
     for (size_t i = 1; i + 1 < r.size(); i++) { double ax = r.ps[i].x - r.ps[i - 1].x, ay = r.ps[i].y - r.ps[i - 1].y, bx = r.ps[i + 1].x - r.ps[i].x, by = r.ps[i + 1].y - r.ps[i].y; if (ax * by - ay * bx == 0 && ax * bx + ay * by < 0) return true; }
@@ -434,7 +471,7 @@ static void c05_phase(int G, int k, double penCells, bool dirs) {
                 // unrestricted optimum <= cost <= optimum over restricted Hanan-grid paths (when one exists)
                 OrthoGrid og2(G, rs); double lb = og2.best(fr[a].x, fr[a].y, fr[b].x, fr[b].y, penCells, 15, 15, 2);
                 if (cost < lb - 1e-6) ctx.violation("cheaper_than_possible", {}, desc, mcx::fmt("route cost %.9g unrestricted optimum %.9g route ", cost, lb) + route_str(c->route()));
-                else if (o < 1e17 && cost > o + 1e-6) ctx.violation("costlier_than_optimal", {faces(fr[a], dl[da]) && da && db ? "both_ends_restricted_and_source_faces_a_shape" : k >= 2 ? (doubles_back(c->route()) ? "direction_restricted_two_rectangles_route_doubles_back" : "direction_restricted_two_rectangles") : "direction_restricted_point_other"}, desc, mcx::fmt("route cost %.9g restricted Hanan optimum %.9g route ", cost, o) + route_str(c->route()));
+                else if (o < 1e17 && cost > o + 1e-6) ctx.violation("costlier_than_optimal", {faces(fr[a], dl[da]) && da && db ? "both_ends_restricted_and_source_faces_a_shape" : fabs(cost - pruned_space_optimum(c, penCells * S) / S) <= 1e-6 ? "direction_restricted_explained_by_documented_turn_pruning" : k >= 2 ? "direction_restricted_two_rectangles_not_optimal_in_pruned_space" : "direction_restricted_point_other"}, desc, mcx::fmt("route cost %.9g restricted Hanan optimum %.9g pruned-search-space optimum %.9g route ", cost, o, pruned_space_optimum(c, penCells * S) / S) + route_str(c->route()));
                 if (cost < o - 1e-6) ctx.count("restriction_not_honoured_or_no_restricted_path");
             }
             ctx.cls("cost_minus_length_in_bends", mcx::fmt("%d", (int)lround((cost - (fabs((double)fr[a].x - fr[b].x) + fabs((double)fr[a].y - fr[b].y))) / max(penCells, 1e-9))));
